@@ -52,11 +52,11 @@ m('c01-reverb-zero', 'C01', 'effect/reverb.rs',
   'A.panic|effect::reverb::comb::CombFilter::process', 'zero-length comb filters at low rates', reverse_of='reverb comb')
 m('c01-slice-index', 'C01', 'sound/static_sound/data.rs',
   '\tframes.get(index + start).copied()', '\tSome(frames[index + start])',
-  'A.panic|sound::static_sound::data::frame_at_index|assert:BoundsCheck', 'unchecked index into the frames', reverse_of='slice reaching')
+  'A.panic|sound::static_sound::data::frame_at_index|index', 'unchecked index into the frames', reverse_of='slice reaching')
 m('c01-new-index', 'C01', 'track/main.rs',
   '\t\tlet num_frames = out.len();\n\t\tfor (i, frame) in out.iter_mut().enumerate() {',
   '\t\tlet num_frames = out.len();\n\t\tself.temp_buffer[num_frames] = Frame::ZERO;\n\t\tfor (i, frame) in out.iter_mut().enumerate() {',
-  'A.panic|track::main::MainTrack::process|<std::vec::Vec<T, A> as std::ops::IndexMut<I>>::index_mut',
+  'A.panic|track::main::MainTrack::process|index',
   'a second, unguarded index into temp_buffer (count exceeds the table)')
 m('c01-drop-sound', 'C01', 'backend/resources.rs',
   '\t\tfor (_, resource) in self.resources.drain_filter(remove_test) {\n\t\t\tself.unused_resource_producer\n\t\t\t\t.push(resource)\n\t\t\t\t.unwrap_or_else(|_| panic!("unused resource producer is full"));\n\t\t}',
